@@ -23,7 +23,7 @@ EXTENDS VmExec, Json, IOUtils, TLC
 Rec == ndJsonDeserialize(IOEnv.TRACE)
 
 VARIABLES l,      \* next line to consume
-          mode,   \* "idle" | "run" | "done" | "failed" | "forked" | "kid" | "kiddone"
+          mode,   \* "idle" | "run" | "done" | "failed" | "forked" | "kid" | "kiddone" | "exited"
           run,    \* the current run's constants
           vm,     \* machine currently being stepped (top-level VM or a child)
           gas,    \* gas spent by that machine
@@ -55,7 +55,9 @@ ProjOK(e, v) ==
      ELSE Len(e.top) <= Len(v.st) /\ e.top = LastN(v.st, Len(e.top))
   /\ IF Has(e, "mem") THEN e.mem = v.mem
      ELSE Len(e.mtop) <= Len(v.mem) /\ e.mtop = LastN(v.mem, Len(e.mtop))
-  /\ e.rep = v.rep
+  /\ e.rl = Len(v.rep)
+  /\ IF Has(e, "rep") THEN e.rep = v.rep
+     ELSE Len(e.rtop) <= Len(v.rep) /\ e.rtop = LastN(v.rep, Len(e.rtop))
   /\ e.halt = v.halt
 
 \* Environment for one op: the recorded answer of the state / crypto primitive
@@ -84,13 +86,18 @@ Stops(r) == r.ctl.t \in {"halt", "come"}
 NewRun(e) ==
   /\ e.e = "init"
   /\ mode' = "run"
-  /\ run' = [plen |-> e.plen, prog |-> e.prog, env |-> e.env, limit |-> e.limit, cost |-> e.cost,
-             f9 |-> FALSE]
+  /\ run' = [plen |-> e.plen, prog |-> e.prog, env |-> e.env, limit |-> e.limit, cost |-> e.cost]
   /\ vm' = e.vm
   /\ gas' = 0
   /\ par' = NoPar
 
-\* One operation (not COM) of the current machine
+\* Preconditions of compute.rs before any child is spawned
+ForkOKvm(v) == /\ Len(v.st) >= 1
+               /\ v.st[Len(v.st)] >= 1
+               /\ Len(v.pm) < MaxDepth
+               /\ Len(v.st) - 1 < StackLimit
+
+\* One operation of the current machine
 StepEv(e) ==
   /\ e.e = "s"
   /\ mode \in {"run", "kid"}
@@ -99,11 +106,13 @@ StepEv(e) ==
   /\ LET op == run.prog[vm.pc + 1]
          c == CostOf(op.n) IN
      /\ e.op = op
-     /\ op.n # "COM"
      /\ ChargeOk(gas, c, run.limit)
      /\ e.g = gas + c
      /\ gas' = gas + c
-     /\ LET r == StepOp(op, vm, EnvFor(e)) IN
+     \* a Compute is reported as a plain step only where it cannot fork (inside a child)
+     /\ LET r == IF op.n = "COM"
+                 THEN (IF ForkOKvm(vm) THEN [k |-> "fork"] ELSE E("compute"))
+                 ELSE StepOp(op, vm, EnvFor(e)) IN
         IF e.ok
         THEN /\ r.k = "ok"
              /\ ReqOK(e, r)
@@ -133,12 +142,8 @@ ForkEv(e) ==
   /\ mode' = "forked"
   /\ UNCHANGED <<run, vm>>
 
-\* Preconditions of compute.rs before any child is spawned
 Breadth(p)  == p.vm.st[Len(p.vm.st)]
-ForkOK(p)   == /\ Len(p.vm.st) >= 1
-               /\ Breadth(p) >= 1
-               /\ Len(p.vm.pm) < MaxDepth
-               /\ Len(p.vm.st) - 1 < StackLimit
+ForkOK(p)   == ForkOKvm(p.vm)
 
 ChildStart(e) ==
   /\ e.e = "cinit"
@@ -159,10 +164,11 @@ ChildExit(e) ==
   /\ e.pc = Clamp(vm.pc)
   /\ e.g = gas
   /\ ProjOK(e, vm)
-  /\ par.acc.gas + gas <= GasMax
   /\ par' = [par EXCEPT !.next = par.cur + 1,
+                        !.failed = par.failed \/ par.acc.gas + gas > GasMax,
                         !.acc = [mem |-> par.acc.mem \o vm.mem, pc |-> Max(par.acc.pc, vm.pc),
-                                 gas |-> par.acc.gas + gas, halt |-> par.acc.halt \/ vm.halt]]
+                                 gas |-> IF par.acc.gas + gas > GasMax THEN GasMax ELSE par.acc.gas + gas,
+                                 halt |-> par.acc.halt \/ vm.halt]]
   /\ mode' = "forked"
   /\ UNCHANGED <<run, vm, gas>>
 
@@ -179,27 +185,34 @@ JoinEv(e) ==
   /\ e.e = "join"
   /\ mode = "forked"
   /\ LET p == par
-         joinOK == /\ ForkOK(p)
+         \* compute.rs: all children returned Ok, their memories fit, their gas sums without overflow
+         kidsOK == /\ ForkOK(p)
                    /\ ~p.failed /\ ~p.skipped /\ p.next = Breadth(p)
                    /\ Len(p.vm.mem) + Len(p.acc.mem) <= MemLimit
-                   /\ p.g + p.acc.gas <= GasMax
+         \* vm.rs: the children's gas is then added with an overflow check and counts towards the limit
+         gasOK == p.g + p.acc.gas <= GasMax /\ p.g + p.acc.gas <= run.limit
          after == [p.vm EXCEPT !.st = DropLast(p.vm.st, 1), !.mem = p.vm.mem \o p.acc.mem,
                                !.halt = p.acc.halt] IN
      IF e.ok
-     THEN /\ joinOK
+     THEN /\ kidsOK
           /\ e.g = p.g       \* the hook reports the parent's gas before the children's is added
           /\ ProjOK(e, after)
-          /\ vm' = [after EXCEPT !.pc = p.acc.pc]
-          /\ gas' = p.g + p.acc.gas
-          /\ mode' = IF p.acc.halt THEN "done" ELSE "run"
-          \* Known finding F9: every child was within the limit, their sum is not.
-          /\ run' = IF p.g + p.acc.gas > run.limit /\ ~run.f9
-                    THEN [run EXCEPT !.f9 = PrintT(<<"KNOWN_F9_AT_LINE", l>>)] ELSE run
-     ELSE /\ ~joinOK
+          /\ IF gasOK
+             THEN /\ vm' = [after EXCEPT !.pc = p.acc.pc]
+                  /\ gas' = p.g + p.acc.gas
+                  /\ mode' = IF p.acc.halt THEN "done" ELSE "run"
+             \* Open finding F9: each child was metered from zero against the full limit, so
+             \* operations were executed although the total was already beyond the limit; the
+             \* parent only notices when it adds the children's gas.
+             ELSE /\ PrintT(<<"KNOWN_F9_AT_LINE", l>>)
+                  /\ vm' = after
+                  /\ gas' = p.g
+                  /\ mode' = "joinoog"
+     ELSE /\ ~kidsOK
           /\ vm' = p.vm /\ gas' = p.g
           /\ mode' = "failed"
-          /\ run' = run
   /\ par' = NoPar
+  /\ UNCHANGED run
 
 \* How the top-level run ended
 ExitEv(e) ==
@@ -210,16 +223,26 @@ ExitEv(e) ==
   /\ e.g = gas
   /\ ProjOK(e, vm)
   /\ e.pm = vm.pm
+  /\ mode' = "exited"
+  /\ UNCHANGED <<run, vm, gas, par>>
+
+\* Vm::eval: the boolean extracted from the final stack (C09)
+EvalEv(e) ==
+  /\ e.e = "eval"
+  /\ mode = "exited"
+  /\ LET top == IF vm.st = <<>> THEN -1 ELSE vm.st[Len(vm.st)] IN
+     e.r = (IF vm.st # <<>> /\ top = 1 THEN "t" ELSE IF vm.st # <<>> /\ top = 0 THEN "f" ELSE "inv")
   /\ mode' = "idle"
   /\ UNCHANGED <<run, vm, gas, par>>
 
 OutOfGasEv(e) ==
   /\ e.e = "oog"
-  /\ mode = "run"
-  /\ ~VmDone(vm)
+  /\ \/ /\ mode = "run"
+        /\ ~VmDone(vm)
+        /\ ~ChargeOk(gas, CostOf(run.prog[vm.pc + 1].n), run.limit)
+     \/ mode = "joinoog"          \* refused when adding the children's gas (at the Compute's pc)
   /\ e.pc = vm.pc
-  /\ ~ChargeOk(gas, CostOf(run.prog[vm.pc + 1].n), run.limit)
-  /\ ProjOK(e, vm)               \* nothing happened
+  /\ ProjOK(e, vm)               \* nothing (else) happened
   /\ mode' = "idle"
   /\ UNCHANGED <<run, vm, gas, par>>
 
@@ -240,7 +263,7 @@ TraceNext ==
   /\ l' = l + 1
   /\ LET e == Rec[l] IN
      \/ NewRun(e) \/ StepEv(e) \/ ForkEv(e) \/ ChildStart(e) \/ ChildExit(e)
-     \/ ChildOutOfGas(e) \/ JoinEv(e) \/ ExitEv(e) \/ OutOfGasEv(e) \/ ErrEv(e) \/ TruncEv(e)
+     \/ ChildOutOfGas(e) \/ JoinEv(e) \/ ExitEv(e) \/ EvalEv(e) \/ OutOfGasEv(e) \/ ErrEv(e) \/ TruncEv(e)
 
 TraceSpec == TraceInit /\ [][TraceNext]_vars
 
@@ -248,9 +271,9 @@ TraceSpec == TraceInit /\ [][TraceNext]_vars
 (* Invariants evaluated in every state of every trace *)
 Bounds == WithinBounds(vm) /\ (par.on => WithinBounds(par.vm))
 
-\* C07: the gas spent never exceeds the limit.  run.f9 marks a run in which the sum over
-\* compute children exceeded it although every single machine stayed within (finding F9).
-GasWithinLimit == (mode # "idle" /\ ~run.f9) => gas <= run.limit
+\* C07: the gas spent (by the machine being stepped, and by a parent including its joined
+\* children) never exceeds the limit.
+GasWithinLimit == mode # "idle" => gas <= run.limit
 
 TraceAccepted ==
   LET d == TLCGet("stats").diameter IN
